@@ -62,6 +62,23 @@ MUTANTS = [
     ("C13", "ref-unpack-memo-by-content", "bisturi/field.py",
      "        p = self.proto_class(_initialize_fields=False)\n        setattr(pkt, self.field_name, p)\n        return p.unpack_impl(**k)\n",
      "        memo = self.__dict__.setdefault('_memo', {})\n        key = (k['raw'][k['offset']:k['offset'] + 16], k['offset'])\n        if key in memo:\n            p, end = memo[key]\n            setattr(pkt, self.field_name, p)\n            return end\n        p = self.proto_class(_initialize_fields=False)\n        setattr(pkt, self.field_name, p)\n        end = p.unpack_impl(**k)\n        if len(k['raw']) - k['offset'] <= 16:\n            memo[key] = (p, end)\n        return end\n"),
+    # ---------------- C15 ----------------
+    ("C15", "cookie-from-pack-code-only", "bisturi/codegen.py",
+     "        cookie_hash.update(unpack_code.encode('utf-8'))\n", ""),
+    ("C15", "cookie-ignores-struct-format", "bisturi/codegen.py",
+     "        cookie_hash.update(pack_code.encode('utf-8'))\n        cookie_hash.update(unpack_code.encode('utf-8'))\n",
+     "        import re as _re\n        cookie_hash.update(_re.sub(r'\"[<>][a-zA-Z0-9]+\"', '', pack_code).encode('utf-8'))\n        cookie_hash.update(_re.sub(r'\"[<>][a-zA-Z0-9]+\"', '', unpack_code).encode('utf-8'))\n"),
+    ("C15", "pyc-not-removed-and-reload-unvalidated", [
+        ("bisturi/codegen.py", "                os.remove(cache_from_source(module_pathname))\n", "                pass\n"),
+        ("bisturi/codegen.py", "            self.write_generated_module(folder, module_pathname, source_code)\n            module = self.load_generated_module(\n                module_name, module_pathname, cookie\n            )\n",
+         "            self.write_generated_module(folder, module_pathname, source_code)\n            sys.modules.pop(module_name, None)\n            module = SourceFileLoader(module_name, module_pathname).load_module()\n")]),
+    # ---------------- C16 ----------------
+    ("C16", "reload-unvalidated", "bisturi/codegen.py",
+     "            self.write_generated_module(folder, module_pathname, source_code)\n            module = self.load_generated_module(\n                module_name, module_pathname, cookie\n            )\n",
+     "            self.write_generated_module(folder, module_pathname, source_code)\n            sys.modules.pop(module_name, None)\n            module = SourceFileLoader(module_name, module_pathname).load_module()\n"),
+    ("C16", "no-in-memory-fallback", "bisturi/codegen.py",
+     "        if module is None:\n            module = types.ModuleType(module_name)\n            module.__file__ = module_pathname\n            exec(\n                compile(source_code, module_pathname, 'exec'),\n                module.__dict__\n            )\n",
+     "        if module is None:\n            sys.modules.pop(module_name, None)\n            module = SourceFileLoader(module_name, module_pathname).load_module()\n"),
     # ---------------- C17 ----------------
     ("C17", "set-does-not-clear-flag", "bisturi/descriptor.py",
      "        setattr(instance, self.iam_enabled_attr_name, False)\n", "        pass\n"),
@@ -81,7 +98,22 @@ MUTANTS = [
      "        # we only care that the real field has the same value\n        self.__set__(instance, val)\n"),
 ]
 
+# weakened but still correct under the property (atomicity or validation alone suffices): must NOT alarm
 NOFALSE = [
+    ("C16", "only-importerror-tolerated", "bisturi/codegen.py",
+     "        except Exception:\n            # half written, truncated, deleted in the meantime, ...\n            return None\n",
+     "        except ImportError:\n            return None\n"),
+    ("C15", "tmp-naming-scheme", "bisturi/codegen.py",
+     "        tmp_pathname = \"%s.%i.%08x.tmp\" % (\n            module_pathname, os.getpid(), random.getrandbits(32)\n        )\n",
+     "        tmp_pathname = os.path.join(folder, \".%08x-%i-%s\" % (random.getrandbits(32), os.getpid(), os.path.basename(module_pathname)))\n"),
+    ("C16", "tmp-naming-scheme", "bisturi/codegen.py",
+     "        tmp_pathname = \"%s.%i.%08x.tmp\" % (\n            module_pathname, os.getpid(), random.getrandbits(32)\n        )\n",
+     "        tmp_pathname = os.path.join(folder, \".%08x-%i-%s\" % (random.getrandbits(32), os.getpid(), os.path.basename(module_pathname)))\n"),
+    ("C16", "never-use-the-cache", "bisturi/codegen.py",
+     "        module = self.load_generated_module(\n            module_name, module_pathname, cookie\n        )\n\n        # If no previously",
+     "        module = None\n\n        # If no previously"),
+    ("C15", "generic-fallback-instead-of-generated", "bisturi/packet_builder.py",
+     "        generate_by_default = True if not self.am_in_debug_mode else False\n", "        generate_by_default = False\n"),
     ("C13", "generic-fallback-instead-of-generated", "bisturi/packet_builder.py",
      "        generate_by_default = True if not self.am_in_debug_mode else False\n", "        generate_by_default = False\n"),
     ("C13", "sequence-local-rename", "bisturi/structural_fields.py",
@@ -98,3 +130,14 @@ def edits(entry):
         return entry[0], entry[1], list(entry[2])
     prop, name, fn, old, new = entry
     return prop, name, [(fn, old, new)]
+
+# mutants that need a rare conjunction (e.g. a 3-piece write, a foreign whole write in the gap and a death);
+# `check sensitivity --hard --tier thorough` is the place for them
+HARD = [
+    ("C16", "tmp-name-shared", "bisturi/codegen.py",
+     "        tmp_pathname = \"%s.%i.%08x.tmp\" % (\n            module_pathname, os.getpid(), random.getrandbits(32)\n        )\n",
+     "        tmp_pathname = module_pathname + '.tmp'\n"),
+    ("C16", "in-place-write-with-validation", "bisturi/codegen.py",
+     "            with open(tmp_pathname, 'w') as module_file:\n                module_file.write(source_code)\n\n            os.replace(tmp_pathname, module_pathname)\n",
+     "            with open(module_pathname, 'w') as module_file:\n                module_file.write(source_code)\n"),
+]
